@@ -164,6 +164,10 @@ class ModelProperty(engine.Property):
     def invariants(self, snap):
         return None
 
+    def may_be_rejected(self, st, op):
+        """Calls the property defines no effect for: accepted or refused, never half-done."""
+        return False
+
     def outcome_kind(self, op, expected, why):
         return f"{self.id}/outcome:{op['op']}"
 
@@ -190,10 +194,18 @@ class ModelProperty(engine.Property):
             return None, None
         probe_link_op(st, op)
         before = st.snap
+        saved = st.model.copy_state() if self.may_be_rejected(st, op) else None
         expected = st.model.apply(op)
         out = st.ex.apply(op)
         if out is None:
             raise engine.egsim.HarnessError(f"model ran {op} but the world skipped it")
+        if saved is not None and "exc" in out and not isinstance(expected, M.Raises):
+            # a call the property gives no effect for (a further end on a
+            # two-ended link) may also be refused -- but then atomically
+            st.model.objs = saved
+            st.model.alt = None
+            expected = M.Raises()
+            st.stats["relaxation:list-level-call-on-two-ended-link-refused"] += 1
         st.stats["op:" + op["op"]] += 1
         if "exc" in out:
             st.stats["fault:failing-call"] += 1
